@@ -25,6 +25,12 @@ CHECKS['C09'] = dict(engine='S', tech=S_TECH,
 CHECKS['C10'] = dict(engine='S', tech=S_TECH,
     text='bounded symbolic verification: one proof viewed through three statements (prover\'s seed, another seed, no seed) in three modes: z3 proves the verifier\'s residual linear form identical across views and modes (honest and altered proofs), recovery with another seed differs from the mask by a polynomial that is not identically zero, RecoverOnly == RecoverAndVerify masks',
     note='A1, A2, A4, A5; aggregation 1', ref='§5 C10')
+CHECKS['C07'] = dict(engine='S+M', tech=S_TECH + '; integer guards from MIR (Engine M, see C16)',
+    text='bounded symbolic verification: a proof made under promise vector p is refused under any single substituted promise (residual not identically zero) and accepted with identically-zero residual under None<->Some(0); promises that do not fit the bit length are refused before the comparison at every position, batch position and mode; the h-coefficient of each promise is part of the C02 relation check',
+    note='A1, A2, A4, A5; positions enumerated, promise values symbolic (registry) or boundary constants', ref='§5 C07')
+CHECKS['C12'] = dict(engine='S+M', tech=S_TECH,
+    text='bounded symbolic verification: proofs made under capacity c_p verify under every c_v (residual identically zero) alone and in mixed-capacity batches in every order; generators are basis elements named by their derivation input, so capacity-dependent derivations would be distinct basis elements and the identity would fail; the model MSM asserts the backend length contracts',
+    note='A1, A2, A4, A5; capacities up to 4m quick / 8m thorough', ref='§5 C12')
 NA = {
 }
 def main():
